@@ -157,6 +157,7 @@ REG_FORMS_SAFE = ["unit_dup", "base_dup", "cat_dup", "cat_foreign_default", "cat
 
 class C07(ValueProfile):
     prop = "C07"
+    expected_faults = ["F1.incompatible", "F1.unknown_name", "F2.peer_exception", "F5.restart", "F7.interrupt", "F7.interrupt_sweep_point"]
     use_reg = True
     intr_reg = True
     reg_forms = REG_FORMS_SAFE
@@ -232,6 +233,7 @@ class C07(ValueProfile):
 
 class C13(ValueProfile):
     prop = "C13"
+    expected_faults = ["F1.incompatible", "F2.peer_exception", "F5.restart", "F7.interrupt"]
     use_nf = True
     use_reg = True
     reg_forms = REG_FORMS_SAFE
@@ -253,6 +255,7 @@ class C13(ValueProfile):
 
 class C05(ValueProfile):
     prop = "C05"
+    expected_faults = ["F1.incompatible", "F1.unknown_name", "F2.peer_exception", "F7.interrupt", "F7.interrupt_sweep_point"]
     use_nf = True
     use_restart = False
     use_reg = True
@@ -280,6 +283,7 @@ class C05(ValueProfile):
 
 class C11(ValueProfile):
     prop = "C11"
+    expected_faults = ["F1.bad_arg", "F2.peer_exception", "F5.restart", "F7.interrupt"]
     use_reg = True
     reg_forms = ["unit_new"]
     client_bias = {"curator": 4.0, "saboteur": 1.5, "inspector": 0.4, "validator": 0.4, "registrar": 0.2}
